@@ -485,14 +485,14 @@ def run(ctx):
         c = json.load(open(pth))["case"]
         (aux if "aux" in c else cases).append(c)
     # anchored mechanisms outside the Lean model (Linearization.outer, einsum.py, integrate): oracle on the real code
-    aux += AUX.gen(ctx.rng, ctx.n(120, 1500))
+    aux += AUX.gen(ctx.rng, ctx.n(120, 800))
     for c in aux:
         ctx.stat("aux:" + c["aux"])
         ctx.case(c, nontrivial=True)
         res = AUX.oracle(c)
         if res:
             ctx.counterexample(c, *res)
-    ntree = ctx.n(220, 2500)
+    ntree = ctx.n(220, 1500)
     while len(cases) < ntree:
         cases.append(gen.case(max_nodes=ctx.n(16, 20)))
     reals, reqs, idx = [], [], []
